@@ -76,6 +76,9 @@ def _tms_shapes(tier):
         for enc in (None, "UCS2_LE"):
             for m in ((0, 2, 40, 400) if T_ else (0, 6)):
                 out.append(dict(kind="text", alen=a, mlen=m, enc=enc))
+    if not T_:  # the boundaries of the one-octet address length, one message of each kind
+        for a in (127, 128, 255):
+            out += [dict(kind="ack", alen=a, opt=True), dict(kind="availability", alen=a, opt=False), dict(kind="text", alen=a, mlen=6, enc=None)]
     return out
 
 
